@@ -660,7 +660,7 @@ func newHarness(cs caseSpec) *harness {
 	}
 	h.cfg = []string{"x", "y"}
 	req := []string{"A.x", "A.y"}
-	if cs.Mix != "leaf" {
+	if cs.Mix != "leaf" && !h.nested {
 		m := resources.NewIncMap(func(idx tla.Value) distsys.ArchetypeResource {
 			name := "m[" + idx.String() + "]"
 			emit(rec{"e": "create", "res": name})
@@ -1168,7 +1168,7 @@ func tail(s string, n int) string {
 	return s
 }
 
-func supervise(casesPath, outPath string, n int, stall int) {
+func supervise(casesPath, outPath string, n int, stall int, maxDeadlocks int) {
 	self, err := os.Executable()
 	if err != nil {
 		fatal(3, "%v", err)
@@ -1241,12 +1241,17 @@ func supervise(casesPath, outPath string, n int, stall int) {
 			emit(rec{"e": "end", "why": "deadlock", "where": summarise(se)})
 			deadlocks++
 			from = int(last.Load()) + 1
+			if maxDeadlocks > 0 && deadlocks >= maxDeadlocks && from < n {
+				// every deadlock costs a process and the runtime's detection latency; the batch has made its point
+				fmt.Printf("cases=%d executed=%d deadlocks=%d watchdogs=%d skipped=%d\n", n, from, deadlocks, watchdogs, n-from)
+				return
+			}
 			continue
 		}
 		io.WriteString(os.Stderr, se)
 		fatal(3, "child failed in case index %d: %v", last.Load(), werr)
 	}
-	fmt.Printf("cases=%d executed=%d deadlocks=%d watchdogs=%d\n", n, from, deadlocks, watchdogs)
+	fmt.Printf("cases=%d executed=%d deadlocks=%d watchdogs=%d skipped=0\n", n, from, deadlocks, watchdogs)
 }
 
 func main() {
@@ -1255,6 +1260,7 @@ func main() {
 	outF := flag.String("out", "trace.ndjson", "")
 	from := flag.Int("from", 0, "")
 	stall := flag.Int("stall", 240, "seconds without progress after which a child is given up (never a verdict)")
+	maxDl := flag.Int("maxdeadlocks", 0, "sup: stop the batch after this many runtime-confirmed deadlocks (0 = never)")
 	flag.Parse()
 	var err error
 	outFh, err = os.OpenFile(*outF, os.O_APPEND|os.O_CREATE|os.O_WRONLY, 0644)
@@ -1264,7 +1270,7 @@ func main() {
 	cases := readCases(*casesF)
 	switch *mode {
 	case "sup":
-		supervise(*casesF, *outF, len(cases), *stall)
+		supervise(*casesF, *outF, len(cases), *stall, *maxDl)
 	case "child":
 		log.SetOutput(io.Discard)
 		for i := *from; i < len(cases); i++ {
